@@ -264,7 +264,8 @@ class TypeOracle:
     @staticmethod
     def _key(mi: ModuleInfo, node: ast.AST):
         return (
-            mi.name,
+            # nodes inlined from another module keep their own positions
+            getattr(node, "_origin_mod", None) or mi.name,
             node.lineno,
             node.col_offset,
             node.end_lineno,
